@@ -596,6 +596,7 @@ macro_rules! backend_impl {
             crate::c12::ops3::core_ops3_impl!(BE);
             crate::c12::ops4::core_ops4_impl!(BE);
             crate::c12::ops5::core_ops5_impl!(BE);
+            crate::c12::ops6::core_ops6_impl!(BE);
 
             pub struct Ops;
             pub static B: Ops = Ops;
@@ -726,6 +727,9 @@ macro_rules! backend_impl {
                 }
 
                 fn core_op(&self, op: &str, shape: &crate::c12::ops::Shape, w: &Window) -> RunResult {
+                    if let Some(r) = ops6::core_op6(op, shape, w) {
+                        return r;
+                    }
                     if let Some(r) = ops5::core_op5(op, shape, w) {
                         return r;
                     }
@@ -742,7 +746,7 @@ macro_rules! backend_impl {
                 }
                 fn core_ops(&self) -> &'static [&'static str] {
                     static ALL: std::sync::OnceLock<Vec<&'static str>> = std::sync::OnceLock::new();
-                    ALL.get_or_init(|| ops::OPS.iter().chain(ops2::OPS2.iter()).chain(ops3::OPS3.iter()).chain(ops4::OPS4.iter()).chain(ops5::OPS5.iter()).copied().collect())
+                    ALL.get_or_init(|| ops::OPS.iter().chain(ops2::OPS2.iter()).chain(ops3::OPS3.iter()).chain(ops4::OPS4.iter()).chain(ops5::OPS5.iter()).chain(ops6::OPS6.iter()).copied().collect())
                 }
 
                 fn word(&self, spec: &WordSpec, w: &Window, cfg: Option<sched::Config>) -> RunResult {
